@@ -1,7 +1,7 @@
 """Contracts for the source-line arithmetic of the renderer (C04): the functions through which a markdown-it
 token's `map` becomes a docutils node's `line`."""
 from pyvc.spec import assumed, contract, fields, history, spec, implies, forall, exists  # noqa: F401
-from contracts.assumed_docutils import GP_ENS, GP_MOD, GP_TEXT
+from contracts.assumed_docutils import GP_COND, GP_ENS, GP_MOD, GP_REQ, GP_TEXT
 
 M = "myst_parser.mdit_to_docutils.base"
 
@@ -140,7 +140,6 @@ fields(f"{M}:DocutilsRenderer", md="MarkdownIt", md_env="MdEnv", _heading_offset
 # the parser object remembers its last input and output
 fields("markdown_it.token:Token", g_src="int")
 fields("markdown_it:MarkdownIt", last_text="str", last_result="list[Token]", last_inline="bool")
-fields("markdown_it:MdEnv", temp_root_node="Element | None")
 
 
 @spec
@@ -187,7 +186,7 @@ NRT_MOD = GP_MOD + ["Token.map", "DocutilsRenderer._level_to_section", "Docutils
                     "MarkdownIt.last_text", "MarkdownIt.last_result", "MarkdownIt.last_inline", "MdEnv.temp_root_node"]
 contract(
     f"{M}:DocutilsRenderer.nested_render_text",
-    requires=[],
+    requires=GP_REQ + ["implies(temp_root_node is not None, allocated(temp_root_node))"],
     at_call={
         "self._render_tokens(tokens)": [
             # what is rendered is what was parsed from the text (plus a final newline for block parsing), minus a leading
@@ -211,9 +210,11 @@ contract(
         "implies(temp_root_node is not None, forall(None, None, lambda k: (k in self._level_to_section) == (k in old(self._level_to_section))))",
         "implies(temp_root_node is not None, forall(None, None, lambda k: implies(k in self._level_to_section,"
         " self._level_to_section[k] == old(self._level_to_section)[k])))",
-        # G' carries through (C06: nested content lands below the current node and nowhere else; the current node is put back)
-        *GP_ENS,
-        "implies(temp_root_node is not None, self.md_env.temp_root_node == old(self.md_env.temp_root_node))",
+        # G' carries through where headings cannot open sections - no temporary root is installed by this call and the
+        # current node is not structural (C06: nested content lands below the current node and nowhere else; the current
+        # node is put back)
+        *[c.replace("implies(old(", "implies(temp_root_node is None and old(", 1) for c in GP_ENS],
+        "implies(temp_root_node is not None, self.md_env.get('temp_root_node', None) == old(self.md_env.get('temp_root_node', None)))",
     ],
     raises={"Exception": []},
     modifies=NRT_MOD,
@@ -240,7 +241,10 @@ fields(f"{MK}:MockState", _renderer="DocutilsRenderer", _lineno="int", state_mac
 fields(f"{MK}:MockStateMachine", match_titles="bool")
 contract(
     f"{MK}:MockState.nested_parse",
-    requires=["node.kind != 'Text'"],
+    requires=["node.kind != 'Text'", "node.kind != 'document' and node.kind != 'section'",
+              # (a directive hands its own new node in; in particular not the temporary root of an enclosing match_titles parse)
+              "node != self._renderer.md_env.get('temp_root_node', None)",
+              "implies(self._renderer.md_env.get('temp_root_node', None) is not None, allocated(self._renderer.md_env.get('temp_root_node', None)))"],
     at_call={
         "self._renderer.nested_render_text(": [
             # the body is rendered with `node` as the current node ...
@@ -255,10 +259,11 @@ contract(
     },
     ensures=[
         "self._renderer.current_node == old(self._renderer.current_node)",
-        # everything the body produced is below `node`: it keeps what it had, every other node that existed keeps its children
-        "node.children[: len(old(node.children))] == old(node.children)",
-        "forall_obj('Element', lambda e: implies(old(allocated(e)) and e != node, e.children == old(e.children)))",
-        "forall_obj('Element', lambda e: implies(old(allocated(e)), e.parent == old(e.parent) and e.kind == old(e.kind)))",
+        # without match_titles (no headings as sections) everything the body produced is below `node`: it keeps what it had,
+        # every other node that existed keeps its children, parent and kind
+        "implies(not match_titles, node.children[: len(old(node.children))] == old(node.children))",
+        "implies(not match_titles, forall_obj('Element', lambda e: implies(old(allocated(e)) and e != node, e.children == old(e.children))))",
+        "implies(not match_titles, forall_obj('Element', lambda e: implies(old(allocated(e)), e.parent == old(e.parent) and e.kind == old(e.kind))))",
         "self.state_machine.match_titles == old(self.state_machine.match_titles)",
     ],
     types={"block": "list[str]", "node": "Element", "state_machine_class": "None", "state_machine_kwargs": "None"},
